@@ -1,5 +1,6 @@
 mod checks;
 mod codecs;
+mod e2e;
 mod engine;
 mod httpdrv;
 mod models;
@@ -39,6 +40,7 @@ fn table() -> Vec<Entry> {
         entry!("C02", c02, "exploration"),
         entry!("C03", c03, "exploration"),
         entry!("C05", c05, "exploration"),
+        entry!("C06", c06, "exploration"),
         entry!("C07", c07, "exploration"),
         entry!("C08", c08, "exploration"),
         entry!("C09", c09, "exploration"),
